@@ -48,5 +48,7 @@ GNext ==
   \/ CbEnd /\ Quiet
   \/ PassEnd /\ Quiet
 GSpec == GInit /\ [][GNext]_gvars
-Emit == IF steps >= Depth THEN PrintT("BEH " \o ToJson([kind |-> kind, hist |-> hist])) /\ FALSE ELSE TRUE
+\* printed when the history reaches Depth recorded steps; longer histories are cut.  (The state itself is kept so that
+\* a -simulate run prints each random history once instead of trying every last step.)
+Emit == IF steps = Depth THEN PrintT("BEH " \o ToJson([kind |-> kind, hist |-> hist])) ELSE steps < Depth
 =============================================================================
